@@ -69,6 +69,7 @@ static void op_tagsweep(char **tok, int n) {
 
 #include "ops_gen.inc"
 #include <sys/mman.h>
+#include "ops_threads.inc"
 
 static int dispatch_all(char **tok, int n) {
     if (!strcmp(tok[0], "tagname")) { op_tagname(tok, n); return 1; }
@@ -131,7 +132,8 @@ int main(void) {
         for (char *p = strtok(line, " "); p && n < (1 << 16); p = strtok(NULL, " ")) tok[n++] = p;
         if (n == 0) { printf("empty\n"); continue; }
         if (g_precall) precall();
-        if (!strcmp(tok[0], "alloc")) op_alloc(tok, n);
+        if (!strcmp(tok[0], "threads")) op_threads(tok, n);
+        else if (!strcmp(tok[0], "alloc")) op_alloc(tok, n);
         else if (!dispatch_all(tok, n)) printf("bad-op\n");
         fflush(stdout);
     }
